@@ -317,6 +317,10 @@ func runPropertyEnum[C any](t *testing.T, prop string, enum []C, gen func(*rapid
 			return // minimisation budget used up (rapid checks its own limit only between phases): stop accepting candidates
 		}
 		o := safeRun(c)
+		if o.Harness != "" && strings.Contains(o.Harness, "child process could not be started") {
+			time.Sleep(time.Second)
+			o = safeRun(c) // an overloaded machine, not the code under test: once more
+		}
 		if o.Harness != "" {
 			st.HarnessErr = o.Harness
 			return
